@@ -28,6 +28,18 @@ CHECKS = {
         "well-formed source can have).",
         "DESIGN.md section 6, C03",
     ),
+    "C05": (
+        "property-based testing (Hypothesis) with exact-formula and metamorphic oracles + exhaustive check of all quadrature tables",
+        "Exploration plus an exhaustive finite part: all 15 quadrature tables are checked for moment exactness; generated strictly "
+        "convex faces (3-8 corners, anywhere on the sphere incl. poles/antimeridian, four size classes) and closed hull meshes "
+        "are compared with the exact spherical excess at the default rule (1e-6/1e-4/1e-2 by size class) and at the highest "
+        "orders (1e-6), and put through metamorphic relations: start corner, node/face renumbering, rigid rotation, "
+        "lon/lat vs Cartesian input, additivity under a diagonal split, cached face_areas vs fresh default after other "
+        "area calls, 4*pi tiling.",
+        "Trusted: Van Oosterom-Strackee solid-angle formula in vlib/sphere.py as the exact area; accuracy claimed only for "
+        "convex faces <= 65 degrees across; table exactness demanded to degree 2n-3 (gaussian) / N (triangular).",
+        "DESIGN.md section 6, C05",
+    ),
     "C17": (
         "property-based testing (Hypothesis): per-element reference reduction (differential oracle)",
         "Exploration: generated mixed-size meshes (incl. face-size gaps, padding columns, any face order) x node-centred arrays "
